@@ -497,6 +497,13 @@ fn run_query(st: &mut St, a: &[&str]) -> R {
             Err(e) => Err(terr(&e)),
         },
         "to_newick" => tr(t.to_newick(), |s| enc_str(&s)),
+        "rt_fmt" => match t.to_formatted_newick(fmt_of(usz(a[1]))) {
+            Err(e) => Err(terr(&e)),
+            Ok(s) => match Tree::from_newick(&s) {
+                Err(e) => Err(format!("{} text {}", nerr(&e), enc_str(&s))),
+                Ok(t2) => Ok(format!("{} {}", enc_str(&s), dump(&t2))),
+            },
+        },
         "rt_newick" => match t.to_newick() {
             Err(e) => Err(terr(&e)),
             Ok(s) => match Tree::from_newick(&s) {
